@@ -19,7 +19,7 @@ GUARD_NAME = re.compile(r"volatil|ref_?count|reference_count|num_references|sing
 
 def run(ctx):
     return _rule_cte(ctx) + [rule_groupidx(ctx["facts"]), rule_matshare(ctx["facts"]), rule_marknull(ctx["facts"]),
-                             rule_existscnt(ctx["facts"]), rule_nullsafe(ctx["facts"]), rule_anycast(ctx["facts"])]
+                             rule_existscnt(ctx["facts"]), rule_nullsafe(ctx["facts"]), rule_anycast(ctx["facts"]), rule_magicdistinct(ctx["facts"])]
 
 
 def _rule_cte(ctx):
@@ -142,7 +142,8 @@ CLAIM = {
             "Whether a CTE is evaluated once is visible in this code shape for all queries; the correctness of subquery decorrelation is "
             "value-level plan rewriting and is not decided in general; one positional-agreement clause of it is (the index a decorrelated "
             "aggregate adds to its grouping sets is the index its column map records). Plus the sharing discipline of materializations: filters above one MaterializationScan enter the shared plan only under a scan-count test, and once anything reads the scan count every path that builds a MaterializationScan increments it. Plus: the functions that write the LeftMark join's verdict column can write NULL (IN over a subquery is three-valued) - two known findings."
-            " Plus three binding/decorrelation clauses: EXISTSCNT (the COUNT behind an uncorrelated EXISTS counts rows), NULLSAFE (outer rows are joined back to their decorrelated result with IS NOT DISTINCT FROM), ANYCAST (the left side of ANY/IN is not cast to the subquery's type by the binder).",
+            " Plus three binding/decorrelation clauses: EXISTSCNT (the COUNT behind an uncorrelated EXISTS counts rows), NULLSAFE (outer rows are joined back to their decorrelated result with IS NOT DISTINCT FROM), ANYCAST (the left side of ANY/IN is not cast to the subquery's type by the binder)."
+            " Plus EXISTSCNT, NULLSAFE, ANYCAST (binding/decorrelation clauses) and MAGICDISTINCT: the magic materialization scan is always planned with its duplicate-eliminating aggregate.",
     "note": "trusted: rustc MIR; guard recognised by callee / field names matching volatile|ref_count|single_use (documented in rules/c09.py)",
     "technique": "static analysis: MIR edge-dominance guard rule (rustc_private driver)",
 }
@@ -409,4 +410,39 @@ def rule_anycast(facts):
     for c in casts:
         r.violate(fn.id, "any-left-cast", "bind_subquery casts the left expression of ANY/IN to the subquery's output type instead of leaving the coercion to the comparison",
                   rec["file"], c.line)
+    return r
+
+
+def rule_magicdistinct(facts):
+    """Decorrelation evaluates the flattened subquery once per DISTINCT value of the correlated columns and joins the result back to the
+    outer rows. The duplicate elimination sits in the physical plan of the magic materialization scan (project -> hash aggregate over all
+    projected columns). Without it an outer value that occurs n times flows through the subquery n times and every multiplicity-sensitive
+    aggregate inside (count, sum) is n-fold. Must-pass-through on `plan_magic_materialize_scan`: every path from the construction of the
+    projection to a return that is not an error propagation constructs the PhysicalHashAggregate."""
+    r = RuleResult("C09-MAGICDISTINCT", "the magic materialization scan is always planned with its duplicate-eliminating aggregate", floor=1)
+    recs = facts.fns_matching(lambda i: i.endswith("::plan_magic_materialize_scan"))
+    if not recs:
+        r.missing_anchor("OperatorPlanState::plan_magic_materialize_scan")
+        return r
+    rec = recs[0]
+    fn = Fn(rec)
+    r.functions.add(fn.id)
+    proj = [c for c in fn.calls() if c.name.endswith("PhysicalProject::new")]
+    agg = [c for c in fn.calls() if c.name.endswith("PhysicalHashAggregate::new")]
+    if not proj:
+        r.missing_anchor("plan_magic_materialize_scan: PhysicalProject::new")
+        return r
+    errs = [c.bb for c in fn.calls() if c.name.endswith("::from_residual")]
+    avoid = set(c.bb for c in agg) | set(errs)
+    bad = []
+    for p_ in proj:
+        for b in fn.reach(p_.bb, avoid_blocks=avoid):
+            if fn.term(b)[0] == "ret":
+                bad.append(p_.line)
+    ok = bool(agg) and not bad
+    r.call_sites += len(proj)
+    r.inst({"fn": fn.id, "aggregate_constructions": len(agg), "success_return_without_aggregate": bool(bad)}, ok)
+    if not ok:
+        r.violate(fn.id, "magic-scan-without-distinct", "a path from the projection of the magic materialization scan to a successful return skips the hash aggregate that "
+                  "removes duplicate outer values: aggregates in a decorrelated subquery are multiplied by the outer value's multiplicity", rec["file"], proj[0].line)
     return r
